@@ -31,7 +31,7 @@ def configs(tier):
     def n_paths(strat, d, q, m):
         # sum over all subsets (by size s) and the 4 container forms of the number of draw outcomes
         import math
-        return 4 * sum(math.comb(d, s) * m ** (q * (1 if strat == 'joint' else s)) for s in range(d + 1))
+        return 5 * sum(math.comb(d, s) * m ** (q * (1 if strat == 'joint' else s)) for s in range(d + 1))
     for strat in ('joint', 'product'):
         for d in range(1, dmax + 1):
             for q in range(1, qmax + 1):
@@ -70,7 +70,7 @@ def scenario(env, cfg):
         return globals()['_' + cfg['group']](env, cfg, ctx)
 
 
-FORMS = {'list': list, 'tuple': tuple, 'set': set, 'frozenset': frozenset}
+FORMS = {'list': list, 'tuple': tuple, 'set': set, 'frozenset': frozenset, 'keys_view': lambda s: dict.fromkeys(s).keys()}
 
 
 def _subsets_forms(env, names):
@@ -128,7 +128,7 @@ def _marginal(env, cfg, ctx):
               detail=f"{len(draws)} draws for |S|={len(S)}, q={q}")
     # ---- nothing modified
     env.claim('instance_unmodified', list(x.keys()) == list(x_copy.keys()) and all(same_term(x[k], x_copy[k]) for k in x_copy))
-    env.claim('subset_unmodified', list(S_obj) == S_copy and type(S_obj) is FORMS[form])
+    env.claim('subset_unmodified', list(S_obj) == S_copy)
     xs_after, ys_after = storage.get_data()
     env.claim('storage_unmodified',
               len(xs_after) == len(data_before[0]) and all(a is b for a, b in zip(xs_after, data_before[0]))
